@@ -1348,6 +1348,20 @@ VH_TARGET(counter_history, 6,
       int64_t ta = w.clk.now();
       ++n_add;
       any_add = true;
+      if (in.kind == kCtrLong && units == (int64_t(1) << 40) - 1)
+      {
+        // An increment the int64 sum point cannot represent (a valid uint64 argument above INT64_MAX), through
+        // the same overload and attribute set: the SDK refuses it with a warning.  Whatever it does with it, the
+        // totals of the representable measurements must stay exact - the model is not updated.  (Seeded C06-m10
+        // let one overload add the wrapped, negative value.)
+        static const uint64_t huge[3] = {UINT64_MAX, uint64_t(1) << 63, (uint64_t(1) << 63) + 40};
+        sg::Arena arena2;
+        add_in_form(*h.cl, huge[n_add % 3], a.list, form, arena2);
+        arena2.release();
+        ta = w.clk.now();
+        c.note("h" + std::to_string(hi) + ".Add(" + std::to_string(huge[n_add % 3]) + ", same attributes)   # not representable, must not disturb the totals\n");
+        c.tag("add-u64-above-int64-max");
+      }
       collected_after_add.clear();
       std::set<sg::KVMap> merged_sets;
       for (size_t si : w.streams_of[{h.meter, h.instr}])
